@@ -133,3 +133,95 @@ Proof.
 Qed.
 
 Print Assumptions guarded_agrees_lemma.
+
+(* ---------- T3: the guard, not the fuel, stops the runaway recursion ---------- *)
+
+Section Runaway.
+Variable known : list (N * list name).
+Variable limit : nat.
+
+Definition rclo : value := VClo [gd_n] runaway_body [] gd_f.
+
+Lemma set_slot_end : forall (st : list value) v, set_slot st (length st) v = st ++ [v].
+Proof. induction st as [|x st IH]; intros v; cbn [length set_slot app]; [reflexivity|]. rewrite IH. reflexivity. Qed.
+
+Lemma run_ident_f f db st offs :
+  exec_guarded known limit (S f) db [Some gd_n] [gd_f] st offs 1 [rclo] (AIdent gd_f) = (Ok rclo, st).
+Proof. reflexivity. Qed.
+
+Local Arguments str_eqb : simpl nomatch.
+Local Arguments oname_eqb : simpl nomatch.
+
+Lemma run_arg f db st offs k :
+  nth_error st offs = Some (VInt k) ->
+  exec_guarded known limit (S (S f)) db ([Some gd_n] ++ repeat None 0) [gd_f] st offs (1 + 0) [rclo]
+               (AOp op_add (AIdent gd_n) (AConst (VInt 1))) = (Ok (VInt (wrap64 (k + 1))), st).
+Proof.
+  intros H. cbn. rewrite Nat.add_0_r, H. reflexivity.
+Qed.
+
+Lemma runaway_loop : forall m fuel offs k st,
+  offs + m = limit -> length st = S offs -> nth_error st offs = Some (VInt k) -> 3 + m <= fuel ->
+  fst (exec_guarded known limit fuel 0 [Some gd_n] [gd_f] st offs 1 [rclo] runaway_body) = Panic.
+Proof.
+  induction m as [|m IH]; intros fuel offs k st Hm Hl Hk Hf.
+  - destruct fuel as [|[|[|f]]]; try lia.
+    rewrite exec_guarded_S. unfold runaway_body. cbn [guard_step].
+    rewrite run_ident_f. cbn [rclo length Nat.eqb]. fold rclo.
+    cbn [q_args]. rewrite (run_arg _ _ _ _ _ Hk).
+    assert (O : overflow limit 0 st (offs + 1 + 0) = true).
+    { unfold overflow. apply andb_true_iff. split; [apply Nat.eqb_eq; lia|apply Nat.ltb_lt; lia]. }
+    rewrite O. reflexivity.
+  - destruct fuel as [|[|[|f]]]; try lia.
+    rewrite exec_guarded_S. unfold runaway_body. cbn [guard_step].
+    rewrite run_ident_f. cbn [rclo length Nat.eqb]. fold rclo.
+    cbn [q_args]. rewrite (run_arg _ _ _ _ _ Hk).
+    assert (O : overflow limit 0 st (offs + 1 + 0) = false).
+    { unfold overflow. apply andb_false_iff. right. apply Nat.ltb_ge. lia. }
+    rewrite O. cbn [q_args].
+    replace (offs + 1 + 0) with (length st) by lia. rewrite set_slot_end.
+    unfold rclo at 1. cbn [q_call map clo_cm clo_cs app fst]. fold rclo. fold runaway_body.
+    apply (IH (S (S f)) (offs + 1) (wrap64 (k + 1)) (st ++ [VInt (wrap64 (k + 1))])); try lia.
+    + rewrite app_length. cbn [length]. lia.
+    + rewrite nth_error_app2 by lia. replace (offs + 1 - length st) with 0 by lia. reflexivity.
+Qed.
+
+(* func f(n) f(n+1); f(0) *)
+Lemma run_ident_top f :
+  exec_guarded known limit (S f) 0 [Some gd_f] [] [rclo] 0 1 [] (AIdent gd_f) = (Ok rclo, [rclo]).
+Proof. reflexivity. Qed.
+
+Lemma run_const f db am cm st offs size cs v :
+  exec_guarded known limit (S f) db am cm st offs size cs (AConst v) = (Ok v, st).
+Proof. reflexivity. Qed.
+
+Lemma runaway_first_call : forall F, limit + 3 <= F ->
+  fst (exec_guarded known limit F 0 [Some gd_f] [] [rclo] 0 1 [] (ACall (AIdent gd_f) [AConst (VInt 0)])) = Panic.
+Proof.
+  intros F HF. destruct F as [|[|f]]; try lia.
+  rewrite exec_guarded_S. cbn [guard_step].
+  rewrite run_ident_top. cbn [rclo length Nat.eqb]. fold rclo.
+  cbn [q_args]. rewrite run_const.
+  destruct limit as [|l] eqn:El.
+  - reflexivity.
+  - assert (O : overflow (S l) 0 [rclo] (0 + 1 + 0) = false) by reflexivity.
+    rewrite O. cbn [q_args set_slot Nat.add].
+    unfold rclo at 1. cbn [q_call map clo_cm clo_cs app fst length]. fold rclo. fold runaway_body.
+    rewrite <- El. apply (runaway_loop l (S f) 1 0 [rclo; VInt 0]); try lia; reflexivity.
+Qed.
+
+(* func f(n) f(n+1); f(0): for every fuel from limit + 4 on the answer is the guard's panic *)
+Theorem guarded_runaway_lemma : forall fuel, limit + 4 <= fuel ->
+  fst (exec_guarded known limit fuel 0 [] [] [] 0 0 [] runaway) = Panic.
+Proof.
+  intros fuel Hf. destruct fuel as [|[|F]]; try lia.
+  rewrite exec_guarded_S. unfold runaway. cbn [guard_step].
+  rewrite exec_guarded_S. cbn [guard_step capture self_of].
+  cbn [overflow length Nat.eqb Nat.add Nat.ltb Nat.leb andb set_slot app].
+  fold runaway_body. fold rclo.
+  apply runaway_first_call. lia.
+Qed.
+
+End Runaway.
+
+Print Assumptions guarded_runaway_lemma.
